@@ -1037,11 +1037,13 @@ def _c06_cases(rng, tier, exhaustive=False):
         H, W = _prox_grid(rng, False)
         single = rng.random() < 0.25
         cells = [0] * (H * W)
+        # cell values: small integers, or values that are not exactly representable in float32 (fractions, large ids, tiny)
+        vals = rng.choice([[1, 2, 3, -1], [1, 2, 3, -1], [0.3, 0.7, 2.5], [20000001, 20000000, 16777217], [1e-60, 1.0, 3.0]])
         if single:
-            cells[rng.randrange(H * W)] = rng.choice([1, 2, 5])
+            cells[rng.randrange(H * W)] = rng.choice(vals)
         else:
             dens = rng.choice([0.1, 0.3, 0.6])
-            cells = [rng.choice([1, 2, 3, -1]) if rng.random() < dens else 0 for _ in range(H * W)]
+            cells = [rng.choice(vals) if rng.random() < dens else 0 for _ in range(H * W)]
         if rng.random() < 0.2:
             cells[rng.randrange(H * W)] = "nan"
         metric = rng.choice(["EUCLIDEAN", "MANHATTAN", "GREAT_CIRCLE"])
@@ -1049,7 +1051,7 @@ def _c06_cases(rng, tier, exhaustive=False):
                 "xstep": rng.choice([1.0, 2.0, 0.5]) if metric != "GREAT_CIRCLE" else rng.choice([1.0, 5.0]),
                 "ystep": rng.choice([1.0, 3.0, 0.25]) if metric != "GREAT_CIRCLE" else rng.choice([1.0, 4.0]),
                 "max_distance": rng.choice([None, None, 1.0, 1.5, 2.5, 4.0]) if metric != "GREAT_CIRCLE" else rng.choice([None, 300000.0]),
-                "target_values": rng.choice([None, None, [1], [2, 3], [0]]), "exact": single}
+                "target_values": rng.choice([None, None, [vals[0]], vals[1:3], [0]]), "exact": single}
         yield case
 
 
@@ -1105,7 +1107,8 @@ def _c06_check(case, want_exact=None):
                 return "cell (%d,%d): proximity %r is smaller than the distance %r to the nearest target" % (i, j, pv, nearest)
             if pv > md + tol(md):
                 return "cell (%d,%d): proximity %r exceeds max_distance %r" % (i, j, pv, md)
-            wit = [t for t in T if abs(D(i, j, t) - pv) <= tol(pv) and a[t] == al[i, j]
+            same_val = (lambda v, o: v == o) if case.get("exact_alloc") else (lambda v, o: float(np.float32(v)) == o or v == o)
+            wit = [t for t in T if abs(D(i, j, t) - pv) <= tol(pv) and same_val(a[t], al[i, j])
                    and min(abs(_bearing(xs[j], xs[t[1]], ys[i], ys[t[0]]) - di[i, j]),
                            360.0 - abs(_bearing(xs[j], xs[t[1]], ys[i], ys[t[0]]) - di[i, j])) <= 1e-3]
             if not wit:
@@ -1121,6 +1124,15 @@ StandIn("c06_proximity_soundness", lambda rng, tier: _c06_cases(rng, tier), _c06
               "max_distance {inf, 1..4}, ascending/descending y, non-square cells: 0 iff target, witness target shared by "
               "proximity/allocation/direction, never below the nearest distance nor above max_distance; single targets exact; "
               "NUMBA_DISABLE_JIT=1")
+def _c06_alloc_cases(rng, tier):
+    for c in _c06_cases(rng, tier):
+        if any(isinstance(v, (int, float)) and v not in (0, 1, 2, 3, -1) for v in c["cells"] if v != "nan"):
+            yield dict(c, exact_alloc=True)
+
+
+StandIn("c06_allocation_reports_exact_value", _c06_alloc_cases, _c06_check,
+        bound="as c06_proximity_soundness restricted to rasters holding values that float32 cannot represent (0.3, 16777217, "
+              "20000001, 1e-60): allocation must report the target's value exactly")
 _ex = lambda rng, tier: _c06_cases(rng, tier, exhaustive=True)
 _ex.exhaustive = True
 StandIn("c06_proximity_exact_small_grids", _ex, lambda c: _c06_check(c, True),
